@@ -56,6 +56,20 @@ func checkC19(r *Run) {
 			r.RequireAtCallAllPaths("C19-R1", fn, "wallet.Wallets.set", 1,
 				req("the published wallet was saved without error, or is temporary", "ok(wallet.Save("+w+", $0.config.WalletDir))", "iface:wallet.Wallet.IsTemp("+w+")"))
 			// R2 provenance of the published value
+			// a single-use helper publishes what its only caller hands it
+			for h, d := fn, 0; d < 2 && r.P.singleUse(h); d++ {
+				site, caller := r.P.onlyCallSite(h)
+				if site == nil {
+					break
+				}
+				cf := r.P.Facts(caller)
+				var args []string
+				for _, a := range site.Common().Args {
+					args = append(args, cf.Term(a))
+				}
+				w = substParams(w, args)
+				h = caller
+			}
 			okp := strings.Contains(w, "wallet.Service.getWallet($0, ") || strings.Contains(w, "wallet.Service.createWallet(") || strings.Contains(w, "iface:wallet.Wallet.Clone(")
 			r.Check("C19-R2", name+": the published wallet is a clone / freshly created value", r.P.Pos(cs.Pos()), okp, trunc(w, 200))
 			// R3: after set only success returns
